@@ -3,7 +3,8 @@
 Correspondence: generated programs are parsed by the REAL parser; the real tree is (a) evaluated by the real
 `Interpreter` in-process on a fresh variable table and (b) serialised to the Lean evaluator (`mvdriver-eval`);
 final variables, `message()` lines, error class and line are compared.
-Oracle: `harness/c01_oracle.py` — the laws of the reference as Python predicates on implementation results.
+Oracle: `harness/c01_oracle.py` — the laws of the reference as Python predicates on implementation results
+(incl. subdir()/subproject() end to end through the real `meson setup --backend=none`).
 """
 from __future__ import annotations
 
@@ -77,7 +78,9 @@ TRUSTED = [
     'the real mparser.Parser produces the tree both sides evaluate (parser laws are checked by the oracle only: '
     'precedence/associativity of random operator trees, rejected forms)',
     'domain: ASCII strings plus non-ASCII code points without case mapping / digit / space / line-break property; '
-    'integers far below the 4300-digit str<->int limit; programs of <= 12 statements, expression depth <= 5',
+    'integers far below the 4300-digit str<->int limit; programs of <= 12 statements, expression depth <= 5; '
+    'programs whose values grow beyond what the list-based model evaluates within 4 GiB / the time limit '
+    '(CPython OverflowError/MemoryError/RecursionError, or model driver out of memory) are counted and skipped',
     'not modelled (model answers UNSUPPORTED, never compared): builtin objects (meson, *_machine), functions other than '
     'message/set_variable/get_variable/is_variable/unset_variable/range/assert, subdir()/subproject(), RangeHolder inside '
     'containers and range == range (object identity), str.format() of non-printable objects, int.to_string(fill: <bool>)',
@@ -152,6 +155,9 @@ def _task(t: T.Tuple[str, int, int, bool]) -> dict:
             v = c01_oracle.oracle_control(im, rng, n)
         elif name == 'variables':
             v = c01_oracle.oracle_variables(im, rng, n)
+        elif name == 'files':
+            v = c01_oracle.oracle_files(im, rng, n, os.path.dirname(im.dir))
+            n = 5 * n
         else:
             raise ValueError(name)
         res['viol'] = v
@@ -203,6 +209,8 @@ def plan(ctx: Ctx) -> T.List[T.Tuple[str, int, int, bool]]:
             tasks.append(('oracle:' + name, rng.getrandbits(32), ch, full))
     tasks.append(('oracle:cross_type', 0, 0, True))
     tasks.append(('oracle:escapes', 0, 0, True))
+    for _ in range(ctx.scale(16, 96)):
+        tasks.append(('oracle:files', rng.getrandbits(32), 1, full))
     return tasks
 
 
@@ -221,10 +229,64 @@ def split_answer(a: str) -> T.Tuple[str, T.List[str]]:
     return head, [t for t in tags.split(',') if t]
 
 
+RESOURCE_ERRORS = ('OverflowError', 'MemoryError', 'RecursionError')
+
+
+def _limit() -> None:
+    import resource
+    resource.setrlimit(resource.RLIMIT_AS, (4 << 30, 4 << 30))
+
+
+def run_model(lines: T.Sequence[str]) -> T.List[T.Optional[str]]:
+    """the model driver on `lines`, in chunks under a 4 GiB address-space limit; a program on which the
+    model exhausts memory/time (values that grow exponentially — a list-of-characters model is far less
+    compact than CPython) is answered None and stays outside the comparison"""
+    import subprocess
+    drv = common.driver_path('eval')
+    if not os.path.exists(drv):
+        raise common.ToolFailure('driver not built: ' + drv)
+
+    def go(part: T.Sequence[str]) -> T.List[T.Optional[str]]:
+        try:
+            p = subprocess.run([drv], input=('\n'.join(part) + '\n').encode(), stdout=subprocess.PIPE,
+                               stderr=subprocess.PIPE, preexec_fn=_limit, timeout=60 + len(part) // 20)
+            res = p.stdout.decode().split('\n')
+            if res and res[-1] == '':
+                res.pop()
+            if p.returncode == 0 and len(res) == len(part):
+                return list(res)
+        except subprocess.TimeoutExpired:
+            pass
+        if len(part) == 1:
+            return [None]
+        mid = len(part) // 2
+        return go(part[:mid]) + go(part[mid:])
+    out: T.List[T.Optional[str]] = []
+    for i in range(0, len(lines), 4000):
+        out += go(lines[i:i + 4000])
+    return out
+
+
 def compare(ctx: Ctx, cases: T.List[T.Tuple[str, str, str, str]]) -> None:
     if not ctx.model_available or not cases:
         return
-    answers = ctx.driver('eval', [c[2] for c in cases])
+    keep = []
+    for c in cases:
+        if c[3].startswith('ERR:') and c[3].split(':')[1] in RESOURCE_ERRORS:
+            ctx.tag('resource-limit(impl)')
+        else:
+            keep.append(c)
+    cases = keep
+    raw = run_model([c[2] for c in cases])
+    answers = []
+    kept = []
+    for c, a in zip(cases, raw):
+        if a is None:
+            ctx.tag('resource-limit(model)')
+        else:
+            kept.append(c)
+            answers.append(a)
+    cases = kept
     tagsets: T.Dict[str, int] = collections.Counter()
     per_case: T.List[T.Optional[str]] = []
     for (kind, code, _line, impl), model in zip(cases, answers):
@@ -316,7 +378,8 @@ def one(im: c01_impl.Impl, code: str) -> T.Tuple[T.Optional[str], str, T.List[c0
     ans, viol = c01_oracle.run_stepwise(im, code, ast)
     try:
         line = 'run ' + c01_impl.serialise(im.mparser, ast)
-        model = split_answer(common.run_driver('eval', [line])[0])[0]
+        raw = run_model([line])[0]
+        model = split_answer(raw)[0] if raw is not None else None
     except Exception:
         model = None
     return model, ans, viol
@@ -371,6 +434,7 @@ def search(ctx: Ctx, disagreements: T.List[dict]) -> None:
         for _ in range(total // ch):
             tasks.append(('oracle:' + name, rng.getrandbits(32), ch, True))
     tasks += [('oracle:cross_type', 0, 0, True), ('oracle:escapes', 0, 0, True)]
+    tasks += [('oracle:files', rng.getrandbits(32), 1, True) for _ in range(64)]
     for kind in ('alias', 'rand', 'mutant'):
         for _ in range(16):
             tasks.append((kind, rng.getrandbits(32), 250, True))
